@@ -2186,7 +2186,8 @@ def preprocess_file(
     if include_stack is None:
         include_stack = []
     if file_path is not None:
-        include_dirs.add(os.path.abspath(os.path.dirname(file_path)))
+        # Not in place: the caller's set (the server's configured directories) is not ours
+        include_dirs = set(include_dirs) | {os.path.abspath(os.path.dirname(file_path))}
         # Files that (directly or not) include themselves are expanded only once
         include_stack = include_stack + [os.path.abspath(file_path)]
     pp_skips = []
